@@ -46,6 +46,27 @@ def deep_reentrancy(rng, cid0):
     lines += ["adv 1", "sweept", "sweepe", "adv 700", "sweept", "sweepe"] + ["adv 1", "sweept", "sweepe"] * 12
     lines.append("end")
     cases.append(lines)
+    # far more holders than the inline array takes, released OLDEST FIRST so that every holder of the map-indexed part
+    # is promoted to the head hold before it leaves; every release is followed by a second UNLOCK of the same LockId
+    # (must be refused, must not take a slot off the count), the last holders must still be able to release
+    key = 48
+    lines = ["case %d 1000000 1 0" % (cid0 + 3)]
+    rid = 770000
+    n = rng.choice([300, 600])
+    for i in range(n):
+        lines.append("req 1 L %d 0 %d %d 0 0 0 600 65535 0 -" % (rid, 12000 + i, key)); rid += 1
+    for i in range(n - 4):
+        lines.append("req 1 U %d 0 %d %d 0 0 0 0 0 0 -" % (rid, 12000 + i, key)); rid += 1
+        lines.append("req 2 U %d 0 %d %d 0 0 0 0 0 0 -" % (rid, 12000 + i, key)); rid += 1
+    for i in range(n - 4, n):
+        lines.append("req 1 U %d 0 %d %d 0 0 0 0 0 0 -" % (rid, 12000 + i, key)); rid += 1
+    lines.append("req 2 L %d 0 12999 %d 0 0 0 600 0 0 -" % (rid, key)); rid += 1
+    lines += ["adv 0", "role 1"]
+    for i in range(3):
+        lines.append("req 1 U %d 1 0 %d 0 0 0 0 0 0 -" % (rid, key)); rid += 1
+    lines += ["adv 1", "sweept", "sweepe", "adv 700", "sweept", "sweepe"] + ["adv 1", "sweept", "sweepe"] * 12
+    lines.append("end")
+    cases.append(lines)
     return cases
 
 
